@@ -1,9 +1,10 @@
 #!/bin/bash
 # sweep.sh SEED TIER [props...]: run checks sequentially, print one line each
 S=$1; T=$2; shift 2
-PROPS=${@:-$(cat /verif/tools/claimed.txt)}
+HERE=$(cd "$(dirname "$0")/.." && pwd)
+PROPS=${@:-$(cat $HERE/tools/claimed.txt)}
 for p in $PROPS; do
-  out=$(VERIF_SEED=$S python3 /verif/run.py check $p --tier $T 2>&1); rc=$?
+  out=$(VERIF_SEED=$S python3 $HERE/run.py check $p --tier $T 2>&1); rc=$?
   echo "rc=$rc $(echo "$out" | grep "^$p tier=" | tail -1)"
   if [ $rc -ne 0 ]; then echo "$out" | grep -v "^KNOWN" | head -12 | cut -c1-700; fi
 done
